@@ -130,7 +130,14 @@ def run_shape(args):
                         f'encoding mismatch on witness {cls} model={model}: symbolic={sym_sum} real={rep["summary"]}')
                 else:
                     out['validated'] += 1
-                if rep.get('cli') is not None:
+                bad_cli = [n for n, ok in (rep.get('cli_judged') or {}).items() if ok is False]
+                if bad_cli:
+                    # the real command line violates an obligation that is stated at that level (exit status / image file)
+                    v = {'obligation': bad_cli[0], 'model': model, 'outcome': cls, 'path': -1, 'shape_id': shape.sid,
+                         'known': None, 'real_outcome': {'api': rep['summary'], 'cli': rep['cli']}}
+                    v['replay'] = save_replay(opts['prop'], shape, v, 200 + len(out['confirmed']))
+                    out['confirmed'].append(v)
+                elif rep.get('cli') is not None:
                     if rep['cli_agrees']:
                         out['cli_validated'] += 1
                     else:
@@ -385,7 +392,9 @@ def do_replay(prop, path):
     name = json.load(open(os.path.join(path, 'violation.json')))['obligation']
     if rep.get('error') and not rep.get('timeout'):
         return 3
-    if rep.get('timeout') or rep['judged'].get(name, True) is False:
+    judged = dict(rep.get('judged') or {})
+    judged.update(rep.get('cli_judged') or {})
+    if rep.get('timeout') or judged.get(name, True) is False:
         print(f'VIOLATION property={prop} replay={path}')
         return 1
     print('replay: the recorded input no longer violates the property')
